@@ -83,7 +83,7 @@ PROFILES = {
     'C08': dict(emit_at_once=0.35, falsy_dedup=True, pool=['timed_window', 'partition_t', 'timed_window_unique', 'map', 'filter', 'buffer', 'flatten'],
                 need=['timed_window', 'partition_t', 'timed_window_unique'], modes=['async', 'async', 'threaded'], md=0.3,
                 sinks=['native', 'tornado', 'future', 'sync'], bursts=True),
-    'C13': dict(off_grid=True, pool=['rate_limit', 'delay', 'map', 'filter', 'union', 'buffer'], need=['rate_limit', 'delay'], stalls=True,
+    'C13': dict(off_grid=True, fail_below_rate_limit=True, pool=['rate_limit', 'delay', 'map', 'filter', 'union', 'buffer'], need=['rate_limit', 'delay'], stalls=True,
                 modes=['async', 'async', 'threaded'], md=0.2, sinks=['sync', 'native', 'tornado', 'future'], bursts=True),
     'C14': dict(late_feeder=True, late_subscriber=True, pool=['latest', 'map', 'filter', 'union'], need=['latest'], feedback_sink=True, modes=['async', 'async', 'threaded'], md=0.4, stalls=True,
                 sinks=['native', 'tornado', 'future', 'sync'], bursts=True),
@@ -419,6 +419,10 @@ class G:
     def add_sink(self, p, mode):
         kinds = self.pf['sinks'] if mode != 'loopless' else ['sync']
         kind = self.pick(kinds)
+        if kind == 'future' and self.chance(0.3):
+            # the consumer hands back an object that can be awaited but is neither a Future nor a coroutine
+            # (a client library's request object, a distributed.Future)
+            kind = 'awaitable'
         node = {'op': 'sink', 'up': [p], 'kind': kind}
         if kind != 'sync':
             node['lat'] = self.lat_list()
@@ -683,12 +687,24 @@ class G:
         fails = []
         if pf.get('inject_failures') and self.chance(0.3):
             # a consumer (or a map_async job) that raises: its element must never be reported complete
-            targets = [n for n in self.graph if (n['op'] == 'sink' and n.get('kind', 'sync') != 'sync') or n['op'] == 'map_async']
+            # (... or the key function of a partition: its update() is a coroutine too, so the exception does not
+            #  unwind the emitting calls, it travels in the awaitable)
+            targets = [n for n in self.graph if (n['op'] == 'sink' and n.get('kind', 'sync') != 'sync') or n['op'] == 'map_async'
+                       or (n['op'] == 'partition' and n.get('key'))]
             for _ in range(r.randrange(1, 3)):
                 if targets:
                     n = self.pick(targets)
                     fails.append({'node': n['id'], 'call': r.randrange(0, 6),
                                   'when': self.pick(['pre', 'post']) if n.get('kind') in ('native', 'tornado') else 'pre'})
+        if pf.get('fail_below_rate_limit') and self.chance(0.15):
+            # a consumer right below a rate_limit raises once and the producers carry on: a delivery that failed
+            # is a delivery all the same - the next element keeps its distance
+            below = [n for n in self.graph if n['op'] == 'sink' and n.get('kind') != 'emit_into'
+                     and self.graph[n['up'][0]]['op'] == 'rate_limit']
+            if below:
+                n = self.pick(below)
+                fails.append({'node': n['id'], 'call': r.randrange(0, 5),
+                              'when': self.pick(['pre', 'post']) if n.get('kind') in ('native', 'tornado') else 'pre'})
         if pf.get('window_survives_failure') and mode == 'loopless' and not feedback and self.chance(0.25):
             # a consumer below a sliding_window raises once and the producer carries on: the windows that follow
             # must still carry the metadata of exactly their own members
